@@ -1,8 +1,11 @@
 """C07 - body limits: 413 unforwarded, exact limit passes, -1 streams; oversized / short backend responses withheld (DESIGN 5/C07).
 
-phases (VERIF_PHASES): mc   FetchPayload step machine + limit selection refine the contract, for both readings of the 4MB default
-                       lead a code model whose default lies outside the interval must violate the contract (non-vacuity)
-                       mbt  every scenario enumerated by TLC run on the real code over sockets; TLC evaluates the contract on the recordings
+phases (VERIF_PHASES): mc   route lookup (route cache on/off) + limit selection + response compression + FetchPayload step machine, over
+                            sequences of identical requests, refine the contract, for both readings of the 4MB default
+                       lead a code model whose default lies outside the interval, and one whose cached route forgets the limit, must
+                            violate the contract (non-vacuity)
+                       mbt  every scenario enumerated by TLC run on the real code over sockets (sequences of identical requests on one
+                            mux/proxy instance when the route cache is on); TLC evaluates the contract on every recorded exchange
 """
 from props import _proxymsg as pm
 
@@ -13,24 +16,32 @@ INVS = ("INVARIANTS ReqLimit RespLimit Oversized413Unforwarded ExactLimitPasses 
 
 def run(ctx):
     ctx.cov["rule"] = ("scenario = (direction, path/pool-level limit, server/proxy-level limit, announcement cl|chunked|close, size class "
-                       "around the effective limit, lying length) enumerated by TLC from specs/ProxyMsgLimit_Gen.tla; evaluation = one real "
-                       "exchange over sockets whose recording TLC evaluated against the contract; non-trivial = scenarios in which a limit "
-                       "decides (oversized, exactly at the limit, stream, lying length)")
+                       "around the effective limit, lying length, route cache on/off (requests), proxy compression on/off (responses)) "
+                       "enumerated by TLC from specs/ProxyMsgLimit_Gen.tla; a scenario with the route cache on is a sequence of identical "
+                       "requests on one mux instance; evaluation = one real exchange over sockets whose recording TLC evaluated against the "
+                       "contract; non-trivial = scenarios in which a limit decides (oversized, exactly at the limit, stream, lying length)")
     ctx.assumptions += [
         "'4MB' default read as the interval [4 000 000, 4 194 304]: bodies up to the lower value must pass, above the upper value must be refused",
         "a request with a lying Content-Length (client stops early) is outside the property text: outcome recorded, not judged",
         "explicit limits are scaled 3 -> 3000 bytes, 5 -> 5000 bytes",
+        "with proxy compression the limit is applied by the code to the compressed body; the text does not say which size counts: a response "
+        "below the limit that may exceed it once compressed (n + n/100 + 100 bytes) is not judged; response bodies are incompressible",
+        "a streamed response that breaks off must be visibly broken: incomplete framing, or a gzip-labelled body that is not a complete gzip stream",
     ]
     if ctx.phase("mc"):
         for d in (8, 9):
-            r = ctx.tlc_mc("ProxyMsgLimit", "SPECIFICATION Spec\nCONSTANTS\n  CodeDefault = %d\n" % d + INVS,
+            r = ctx.tlc_mc("ProxyMsgLimit", "SPECIFICATION Spec\nCONSTANTS\n  CodeDefault = %d\n  HitLimit = \"kept\"\n" % d + INVS,
                            label="FetchPayload + limit selection refine the contract, default=%d" % d, timeout=600, workers=4)
         ctx.log("model checked: %d distinct states" % r.distinct)
     if ctx.phase("lead"):
-        r = ctx.tlc_mc("ProxyMsgLimit", "SPECIFICATION Spec\nCONSTANTS\n  CodeDefault = 20\nINVARIANTS ReqLimit RespLimit\n", expect_ok=False,
-                       count=False, label="lead: default outside the interval must violate the contract", timeout=600, workers=4)
+        r = ctx.tlc_mc("ProxyMsgLimit", "SPECIFICATION Spec\nCONSTANTS\n  CodeDefault = 20\n  HitLimit = \"kept\"\nINVARIANTS ReqLimit RespLimit\n",
+                       expect_ok=False, count=False, label="lead: default outside the interval must violate the contract", timeout=600, workers=4)
         if r.violated not in ("ReqLimit", "RespLimit"):
             ctx.inconclusive("a code model with a wrong default does not violate the contract (vacuous?):\n" + r.out[-1500:])
+        r = ctx.tlc_mc("ProxyMsgLimit", "SPECIFICATION Spec\nCONSTANTS\n  CodeDefault = 8\n  HitLimit = \"lost\"\nINVARIANTS ReqLimit\n",
+                       expect_ok=False, count=False, label="lead: a cached route that forgets the limit must violate the contract", timeout=600, workers=4)
+        if r.violated != "ReqLimit":
+            ctx.inconclusive("a code model whose cached route forgets the limit does not violate the contract (vacuous?):\n" + r.out[-1500:])
     if ctx.phase("mbt"):
         _mbt(ctx)
 
@@ -50,32 +61,44 @@ def _mbt(ctx):
     verdicts = pm.evaluate(ctx, "ProxyMsgLimit_Trace", events, "c07_trace")
     by_id = {c["id"]: c for c in cases}
     ev_by_id = {e["id"]: e for e in events}
+    ctx.log("%d exchanges recorded" % len(events))
+    seen = {}
+    for e in events:
+        seen[e["case"]] = seen.get(e["case"], 0) + 1
+    if not any(by_id[c]["cache"] and n > 1 for c, n in seen.items()):
+        ctx.inconclusive("no sequence of repeated requests with the route cache on was carried out")
+    if not any(by_id[c]["comp"] and by_id[c]["short"] for c in seen):
+        ctx.inconclusive("no compressed response that breaks off was carried out")
     ctx.evals(len(events))
     ctx.traces(len(events))
     for e in events:
-        c = by_id[e["id"]]
+        c = by_id[e["case"]]
         if c["stream"] or c["short"] or c["rel"] in ("lo", "hi+1", "x4"):
-            ctx.nontrivial({k: c[k] for k in ("dir", "inner", "outer", "enc", "rel", "short")})
+            ctx.nontrivial({k: c[k] for k in ("dir", "inner", "outer", "enc", "rel", "short", "cache", "comp")})
     for e in events[:3]:
         ctx.sample({"kind": "exchange", "dir": e["dir"], "limits": [e["inner"], e["outer"]], "body": e["w"], "observed": e["o"]})
     drift = 0
-    for cid, (viol, dr) in sorted(verdicts.items()):
-        c, e = by_id[cid], ev_by_id[cid]
+    for eid, (viol, dr) in sorted(verdicts.items()):
+        e = ev_by_id[eid]
+        c = by_id[e["case"]]
         if not viol:
             drift += 1
             if drift <= 8:
                 ctx.notes.append("model drift (contract satisfied): fields %s scenario %s observed %s" % (dr, pm.jdump(e["scn"]), pm.jdump(e["o"])))
             continue
-        sig = {"dir": c["dir"], "level": c["level"], "stream": c["stream"], "enc": c["enc"], "rel": c["rel"], "short": c["short"]}
+        sig = {"dir": c["dir"], "level": c["level"], "stream": c["stream"], "enc": c["enc"], "rel": c["rel"], "short": c["short"],
+               "cache": c["cache"], "comp": c["comp"], "repeat": e["k"] > 1}
         o = e["o"]
         if c["dir"] == "req":
-            what = ("request body announced as %s (%s bytes declared, %s sent) with clientMaxBodySize path=%s server=%s: client got %s, backend "
-                    "contacted=%s, received intact=%s" % (c["enc"], e["w"]["declared"], e["w"]["actual"], e["inner"], e["outer"], o["status"],
-                                                           o["forwarded"], o["intact"]))
+            what = ("request %d of a sequence of identical requests (route cache %s): body announced as %s (%s bytes declared, %s sent) with "
+                    "clientMaxBodySize path=%s server=%s: client got %s, backend contacted=%s, received intact=%s" % (
+                        e["k"], "on" if c["cache"] else "off", c["enc"], e["w"]["declared"], e["w"]["actual"], e["inner"], e["outer"], o["status"],
+                        o["forwarded"], o["intact"]))
         else:
-            what = ("backend response announced as %s (%s bytes declared, %s sent) with serverMaxBodySize pool=%s proxy=%s: client got status %s, "
-                    "%s body bytes, complete=%s, intact=%s" % (c["enc"], e["w"]["declared"], e["w"]["actual"], e["inner"], e["outer"], o["status"],
-                                                                o["got"], o["complete"], o["intact"]))
+            what = ("backend response announced as %s (%s bytes declared, %s sent) with serverMaxBodySize pool=%s proxy=%s, proxy compression %s: "
+                    "client got status %s, %s body bytes (Content-Encoding %r), complete=%s, intact=%s" % (
+                        c["enc"], e["w"]["declared"], e["w"]["actual"], e["inner"], e["outer"], "on" if c["comp"] else "off", o["status"],
+                        o["got"], o.get("label"), o["complete"], o["intact"]))
         ctx.violation(sig, what, {"case": c, "exchange": e})
     if drift:
         ctx.notes.append("%d exchanges satisfied the contract but differed from the implementation-shaped layer's prediction" % drift)
